@@ -42,7 +42,7 @@ Definition next_sel (sels : list selans) : selans * list selans :=
   end.
 
 (* one selector wait as seen from outside: the event registered (write?) and the wait requested (None = select()) *)
-Record wait := { w_write : bool; w_req : tmo }.
+Record wait := { w_write : bool; w_req : tmo; w_ready : bool; w_el : Z }.   (* + what the selector answered *)
 
 Inductive cbres (R : Type) :=
 | CbOk (r : R)
@@ -98,7 +98,7 @@ Section Retry.
               let is_ri := negb (tmo_leb T ri) in                           (* timeout <= retry_interval ? *)
               let wt := if is_ri then ri else T in
               let '(a, sels1) := next_sel sels in
-              let wl := [{| w_write := w; w_req := wt |}] in
+              let wl := [{| w_write := w; w_req := wt; w_ready := sa_ready a; w_el := sa_el a |}] in
               match wt with
               | None =>                                                       (* wait_time == math.inf: selector.select() *)
                   if sa_ready a then rr_add (cost + sa_el a) wl (retry_loop f ri T st1 sels1)
@@ -119,7 +119,5 @@ Section Retry.
 End Retry.
 Arguments retry_loop {St R}. Arguments retry {St R}.
 
-(* sums over a trace of waits / selector answers (used by the C11 statements) *)
-Definition sum_el (l : list selans) : Z := fold_right (fun a s => sa_el a + s) 0 l.
-Definition req_fin (w : wait) : Z := match w_req w with Some z => z | None => 0 end.
-Definition sum_req (l : list wait) : Z := fold_right (fun w s => req_fin w + s) 0 l.
+(* sums over a trace of waits (used by the C11 statements) *)
+Definition sum_wait_el (l : list wait) : Z := fold_right (fun w s => w_el w + s) 0 l.
